@@ -250,6 +250,10 @@ func init() {
 			}
 			return ex.st.UF("uf_"+name, 64, a, b), nil
 		},
+		"vSharedWrites": func(ex *Exec, st *State, fr *Frame, args []Value, in ssa.Instruction) (Value, *forkReq) {
+			// number of stores to package-level variables since initialisation
+			return ex.st.BV(uint64(len(st.SharedWrites)), 64), nil
+		},
 		"vTrace": func(ex *Exec, st *State, fr *Frame, args []Value, in ssa.Instruction) (Value, *forkReq) {
 			st.Trace = append(st.Trace, mustStr(args[0], "vTrace"))
 			return nil, nil
